@@ -38,12 +38,35 @@ func init() {
 	})
 }
 
-// Built is a tree plus its model and the plan of reader tasks.
+// Built is a tree plus its model and the plan of reader tasks. Twin is a
+// second tree built by the same history: the sequential reference answers are
+// taken from it, so that the tree under test has not been touched by any query
+// before the concurrent epoch starts (a query that tidies the tree up as a
+// side effect would otherwise hide behind the sequential pass).
 type Built struct {
 	W     *qt.World
 	Tree  *quadtree.Quadtree
+	Twin  *quadtree.Quadtree
 	Model qt.Model
 	Plan  [][]*qt.Query
+}
+
+type buildOp struct {
+	kind int // 0 add, 1 remove
+	x    *qt.Pt
+}
+
+func apply(b orb.Bound, ops []buildOp) *quadtree.Quadtree {
+	tr := quadtree.New(b)
+	for _, op := range ops {
+		x := op.x
+		if op.kind == 0 {
+			tr.Add(x)
+		} else {
+			tr.Remove(x, func(p orb.Pointer) bool { return p == orb.Pointer(x) })
+		}
+	}
+	return tr
 }
 
 // Build draws the tree-building history and the reader plan (shared with the race engine).
@@ -51,38 +74,37 @@ func Build(t *core.T) *Built {
 	s := t.Src
 	alphabet := []int{2, 3, 5, 9, 16, 32, 64}[s.Pick([]int{1, 1, 2, 2, 2, 2, 1}, "alphabet")]
 	b := &Built{W: qt.NewWorld(s, alphabet)}
-	b.Tree = quadtree.New(b.W.Bound)
 	nAdd := []int{0, 1, 3, 8, 20, 60, 150}[s.Pick([]int{1, 1, 2, 3, 3, 2, 1}, "nadd")]
 	id := 0
 	var removed []*qt.Pt
+	var ops []buildOp
 	s.Repeat(0, nAdd, nAdd, "build", func(i int) {
 		switch s.Pick([]int{6, 2, 1}, "bop") {
 		case 0:
 			x := &qt.Pt{ID: id, P: b.W.Pool[s.Intn(len(b.W.Pool), "pt")]}
 			id++
-			if err := b.Tree.Add(x); err == nil {
-				b.Model.Add(x)
-			}
+			ops = append(ops, buildOp{0, x})
+			b.Model.Add(x)
 		case 1:
 			if len(b.Model.Live) == 0 {
 				return
 			}
 			x := b.Model.Live[s.Intn(len(b.Model.Live), "victim")]
-			if b.Tree.Remove(x, func(p orb.Pointer) bool { return p == orb.Pointer(x) }) {
-				b.Model.RemoveIdentity(x)
-				removed = append(removed, x)
-			}
+			ops = append(ops, buildOp{1, x})
+			b.Model.RemoveIdentity(x)
+			removed = append(removed, x)
 		default:
 			if len(removed) == 0 {
 				return
 			}
 			x := removed[len(removed)-1]
 			removed = removed[:len(removed)-1]
-			if err := b.Tree.Add(x); err == nil {
-				b.Model.Add(x)
-			}
+			ops = append(ops, buildOp{0, x})
+			b.Model.Add(x)
 		}
 	})
+	b.Tree = apply(b.W.Bound, ops)
+	b.Twin = apply(b.W.Bound, ops)
 	nt := 2 + s.Pick([]int{6, 4, 3, 2, 2, 1, 1}, "ntasks")
 	if s.Chance(1, 10, "manytasks") {
 		nt = s.Range(9, 32, "nt")
@@ -102,19 +124,25 @@ func Build(t *core.T) *Built {
 func Run(t *core.T) {
 	b := Build(t)
 	t.Logf("tree: %d live pointers, bound %v..%v; %d tasks", len(b.Model.Live), b.W.Bound.Min, b.W.Bound.Max, len(b.Plan))
-	if msg := b.Model.CheckContents(b.Tree); msg != "" {
+	// the image is taken before any query has touched the tree under test
+	before, nodes := qt.Image(b.Tree)
+	if h2, _ := qt.Image(b.Tree); h2 != before {
+		t.Out.Trouble = "tree image is not stable between two consecutive walks"
+		return
+	}
+	if msg := b.Model.CheckContents(b.Twin); msg != "" {
 		t.Violate("contents", "build", "", "after the building history: %s", msg)
 		return
 	}
 
-	// every planned query alone, against the frozen tree
+	// every planned query alone, against the twin built by the same history
 	want := make([][]qt.Result, len(b.Plan))
 	total := 0
 	for i, qs := range b.Plan {
 		want[i] = make([]qt.Result, len(qs))
 		for j, q := range qs {
 			q, i, j := q, i, j
-			if t.Guard(qt.QueryNames[q.Kind], func() { want[i][j] = q.Exec(b.Tree) }) {
+			if t.Guard(qt.QueryNames[q.Kind], func() { want[i][j] = q.Exec(b.Twin) }) {
 				return
 			}
 			if oracle, msg := b.Model.Check(q, want[i][j]); oracle != "" {
@@ -124,12 +152,6 @@ func Run(t *core.T) {
 			total++
 		}
 	}
-	before, nodes := qt.Image(b.Tree)
-	if h2, _ := qt.Image(b.Tree); h2 != before {
-		t.Out.Trouble = "tree image is not stable between two consecutive walks"
-		return
-	}
-
 	instr := props.Variant == "instr"
 	perQuery := int64(nodes + 10)
 	if instr {
@@ -222,17 +244,17 @@ func Run(t *core.T) {
 func RunRace(t *core.T) {
 	b := Build(t)
 	t.Logf("tree: %d live pointers; %d goroutines", len(b.Model.Live), len(b.Plan))
+	before, _ := qt.Image(b.Tree)
 	want := make([][]qt.Result, len(b.Plan))
 	for i, qs := range b.Plan {
 		want[i] = make([]qt.Result, len(qs))
 		for j, q := range qs {
 			q, i, j := q, i, j
-			if t.Guard(qt.QueryNames[q.Kind], func() { want[i][j] = q.Exec(b.Tree) }) {
+			if t.Guard(qt.QueryNames[q.Kind], func() { want[i][j] = q.Exec(b.Twin) }) {
 				return
 			}
 		}
 	}
-	before, _ := qt.Image(b.Tree)
 	type diff struct {
 		i, j int
 		got  qt.Result
